@@ -235,7 +235,6 @@ Theorem C10_sync_layout : forall typ ntr c0 c1 c2 c3 start stop one thr gain use
   nsync_of typ c0 c1 c2 c3 = 1 -> 1 <= ntr ->
   (forall r, In r raw -> Z.of_nat (length r) = ntr) ->
   (forall i, In i (analog_indices typ c0 c1 c2 c3) -> 0 <= i < ntr) ->
-  (use_floor = false \/ slice_rows start stop raw <> [] \/ analog_indices typ c0 c1 c2 c3 = []) ->
   let sel := slice_rows start stop raw in
   let floors := floors_of use_floor (analog_volts typ c0 c1 c2 c3 gain sel)
                           (length (analog_indices typ c0 c1 c2 c3)) in
@@ -251,7 +250,7 @@ Theorem C10_sync_layout : forall typ ntr c0 c1 c2 c3 start stop one thr gain use
   analog_indices typ c0 c1 c2 c3 =
     (if typ =? 1 then map (fun i => c0 + c1 + Z.of_nat i) (seq 0 (Z.to_nat c2)) else []).
 Proof.
-  intros. split; [now apply read_sync_layout|]. split; [apply slice_rows_length|].
+  intros. split; [now apply read_sync_layout_total|]. split; [apply slice_rows_length|].
   split; [intros j Hj; now apply slice_rows_nth|apply analog_indices_spec].
 Qed.
 Print Assumptions C10_sync_layout.
@@ -349,18 +348,19 @@ Proof.
 Qed.
 Print Assumptions C10_analog_threshold.
 
-(* Totality in the one-word domain: read_sync fails in exactly one situation —
-   floor on, analog channels present, empty selection (F-C10-c); in every other
-   case C10_sync_layout gives its value. *)
-Theorem C10_read_sync_fails_exactly_when :
+(* Totality in the one-word domain: read_sync always returns, one row per
+   selected sample; an empty selection gives zero rows, floor on or off
+   (repair 5bea0f5; before it the floor raised on an empty analog block). *)
+Theorem C10_read_sync_total :
   forall typ ntr c0 c1 c2 c3 start stop one thr gain use_floor raw,
   nsync_of typ c0 c1 c2 c3 = 1 -> 1 <= ntr ->
   (forall r, In r raw -> Z.of_nat (length r) = ntr) ->
   (forall i, In i (analog_indices typ c0 c1 c2 c3) -> 0 <= i < ntr) ->
-  (read_sync typ ntr c0 c1 c2 c3 start stop one thr gain use_floor raw = None <->
-   use_floor = true /\ slice_rows start stop raw = [] /\ analog_indices typ c0 c1 c2 c3 <> []).
-Proof. exact read_sync_none_iff. Qed.
-Print Assumptions C10_read_sync_fails_exactly_when.
+  exists rows, read_sync typ ntr c0 c1 c2 c3 start stop one thr gain use_floor raw = Some rows /\
+    length rows = length (slice_rows start stop raw) /\
+    (slice_rows start stop raw = [] -> rows = []).
+Proof. exact read_sync_total. Qed.
+Print Assumptions C10_read_sync_total.
 
 (* The floor is a function of the multiset of the column's samples (their
    order in time does not matter), and a constant offset added to the channel
@@ -372,16 +372,13 @@ Theorem C10_floor_multiset_and_offset :
 Proof. split; [exact pct10x_perm_invariant|exact pct10x_shift]. Qed.
 Print Assumptions C10_floor_multiset_and_offset.
 
-(* Inside the property's domain (a valid, empty sample selection; one sync
-   word): with analog channels and the floor on, read_sync raises (IndexError
-   from np.percentile of an empty column) instead of returning zero rows;
-   without the floor it returns zero rows.  Confirmed on the real code
-   (known finding F-C10-c). *)
-Theorem C10_empty_selection_refuted :
-  exists raw, read_sync 1 2 0 0 1 1 1 1 1024 1200 1 true raw = None /\ length raw = 2%nat
+(* an empty sample selection on a recording with analog sync channels: zero
+   rows, floor on or off (was C10_empty_selection_refuted before repair 5bea0f5) *)
+Theorem C10_empty_selection :
+  exists raw, read_sync 1 2 0 0 1 1 1 1 1024 1200 1 true raw = Some [] /\ length raw = 2%nat
               /\ read_sync 1 2 0 0 1 1 1 1 1024 1200 1 false raw = Some [].
 Proof. exists [[5; 1]; [6; 3]]. vm_compute. auto. Qed.
-Print Assumptions C10_empty_selection_refuted.
+Print Assumptions C10_empty_selection.
 
 (* Outside the property's domain (the property speaks of THE 16-bit sync word
    of a sample): what the faithful model — and the real code — do for other
@@ -499,11 +496,11 @@ Example ex_raw_hyps :
   nsync_of 1 1 0 1 1 = 1 /\ 1 <= 3 /\
   (forall r, In r ex_raw -> Z.of_nat (length r) = 3) /\
   (forall i, In i (analog_indices 1 1 0 1 1) -> 0 <= i < 3) /\
-  (true = false \/ slice_rows 0 4 ex_raw <> [] \/ analog_indices 1 1 0 1 1 = []).
+  True.
 Proof.
   split; [reflexivity|]. split; [lia|]. split.
   - intros r H. cbn in H. intuition (subst; reflexivity).
-  - split; [intros i H; vm_compute in H; destruct H as [<-|[]]; lia|]. right. left. vm_compute. discriminate.
+  - split; [intros i H; vm_compute in H; destruct H as [<-|[]]; lia|exact I].
 Qed.
 
 (* ... and the theorem applied to it: the analog line of sample 1 is the
@@ -514,7 +511,7 @@ Example C10_example_hyp_reader :
     nth 16 (nth 1 rows []) 0 = 1 /\ nth 16 (nth 3 rows []) 0 = 0.
 Proof.
   destruct ex_raw_hyps as (H1 & H2 & H3 & H4 & H5).
-  pose proof (C10_sync_layout 1 3 1 0 1 1 0 4 1024 1200 1 true ex_raw H1 H2 H3 H4 H5) as [HL _].
+  pose proof (C10_sync_layout 1 3 1 0 1 1 0 4 1024 1200 1 true ex_raw H1 H2 H3 H4) as [HL _].
   eexists. split; [exact HL|].
   split; [|vm_compute; split; reflexivity].
   pose proof (C10_analog_line_alone 1 3 1 0 1 1 0 4 1024 1200 1 true ex_raw _ 0%nat 1%nat H1 H2 H3 H4 HL) as HA.
